@@ -10,7 +10,7 @@ from fractions import Fraction
 from . import engine, docutil, c03, c06, c16
 
 svg = None
-CASE_TIMEOUT = 6.0
+CASE_TIMEOUT = 20.0
 
 FAULT_TEXT = {
     "tf_unclosed": ["translate(10,20", "rotate(30", "scale(2,3) translate(5"],
@@ -113,6 +113,10 @@ def to_xml(doc, over, k):
 
 def collect(node, faulty_ids, acc, inside_ids=()):
     if getattr(node, "id", None) in faulty_ids:
+        return
+    if getattr(node, "id", None) in inside_ids and not isinstance(node, svg.Shape):
+        # a container or use defined inside a faulty container, reached through a use outside it: whatever it
+        # renders (including elements defined elsewhere that it references) passes through the faulty subtree - left open
         return
     if isinstance(node, svg.Shape):
         # an element defined inside a faulty container may still be rendered through a use outside it: that too is left open
